@@ -107,6 +107,17 @@ theorem parse_after_change (name : Str) (kvs : List (Str × Str)) (newkv : Map)
   rw [changeKeyvals_exact name kvs newkv hn hk]
   exact parse_render name _ hn hk'
 
+/-! ## the nested tokenizer -/
+
+/-- **nested tokenising never splits inside balanced brackets**: whenever
+`NestedStringTokenizer(s, "(", ")", delimiters)` (non-solid) returns, every token is non-empty, has
+as many `(` as `)`, and every delimiter character it contains is inside brackets — a cut is made only
+where the bracket count is 0.  For every input and every delimiter set without brackets. -/
+theorem nested_balanced (isD : Char → Bool) (hbr : ∀ c, isD c = true → delta c = 0) (s : Str)
+    (toks : List Str) (h : nested isD false 0 s = some toks) :
+    ∀ t ∈ toks, depthSum t = 0 ∧ delimsInside isD 0 t = true ∧ t ≠ [] :=
+  (nested_spec isD hbr s).1 0 toks h
+
 /-- non-vacuity: a nested value with commas and an `=` inside satisfies the side conditions -/
 example : NameOk "Gamma".toList = true ∧
     PairOk ("alpha".toList, "Beta(a=1,b=g(x=2,y=3))".toList) = true ∧ PairOk ([], "z".toList) = true := by
